@@ -479,7 +479,8 @@ def u_visit_for(c):
         tgt = [e.sig() for e in PE.events(inner)[len(loops):]]
         exp = [ev_sig(*e) for e in tevs if dec.get((e[0], None))]
         c.prove(f"{label}/target-bindings-reported-in-order", tgt == exp, note=f"{tgt} vs {exp}", only=["C02"])
-    c.prove(f"{label}/iter-and-bodies-visited", "__VE1" in PE.dump(out.iter) and "__VS1" in PE.dump(out), only=["C02", "C06"])
+    c.prove(f"{label}/iter-and-bodies-visited", "__VE1" in PE.dump(out.iter) and "__VS1" in PE.dump(out.body)
+            and ("__S2" not in src or "__VS2" in PE.dump(out.orelse)), only=["C02", "C06"])
 
 
 @unit("visit_Try", ["C01", "C02"], VISITORS)
@@ -656,6 +657,7 @@ SCOPE_PROGRAMS = [
     ("except-body", "def f():\n    try:\n        pass\n    except ValueError:\n        inside = 1\n    return inside", {"inside": "body", "ValueError": "external"}),
     ("try-finally", "def f():\n    try:\n        t = 1\n    finally:\n        u = 2\n    return t + u", {"t": "body", "u": "body"}),
     ("import", "def f():\n    import os\n    import os.path as p\n    from sys import argv as av\n    return os, p, av", {"os": "body", "p": "body", "av": "body"}),
+    ("import-dotted", "def f():\n    import os.path\n    import xml.dom\n    return os", {"os": "body", "xml": "body"}),
     ("walrus", "def f(a):\n    if (n := a):\n        pass\n    return n", {"n": "body", "a": "argument"}),
     ("nested-def", "def f():\n    def g():\n        return 1\n    return g()", {"g": "body"}),
     ("nested-class", "def f():\n    class A:\n        pass\n    return A()", {"A": "body"}),
